@@ -160,8 +160,10 @@ func (g *gen) lifecycleR(p *Plan, code, L, conc int) {
 	bs := bsBytes(4)
 	n0 := 300
 	n1 := bs + 700
-	o0 := WOpts{BS: 4, CSum: true, Size: -1, Conc: 1}
-	o1 := WOpts{BS: 4, BSum: true, CSum: true, Conc: 1}
+	// source 0/2: every optional field present; source 1: a legacy frame (no
+	// field at all), so that anything a Reset leaves behind shows
+	o0 := WOpts{BS: 4, BSum: true, CSum: true, Size: -1, Conc: 1}
+	o1 := WOpts{BS: 4, Legacy: true, Conc: 1}
 	if code < 0 {
 		n0 = g.r.PickInt(0, 1, 300, bs, bs+1, 2*bs+9)
 		n1 = g.r.PickInt(0, 1, 300, bs, bs+700)
@@ -169,6 +171,7 @@ func (g *gen) lifecycleR(p *Plan, code, L, conc int) {
 		o0.BS, o0.Level, o0.HYield = 4, 0, 0
 		o1 = g.wopts(1)
 		o1.BS, o1.Level, o1.HYield = 4, 0, 0
+		o1.Legacy = g.r.Chance(1, 3)
 	}
 	p.Inputs = []Input{{Class: "text", Len: n0, Seed: g.r.Uint64()}, {Class: "mixed", Len: n1, Seed: g.r.Uint64()}}
 	tail := []byte{1, 2, 3, 4, 5, 6, 7, 8, 9, 10, 11, 12}
